@@ -239,6 +239,12 @@ def check_property(prop, tier, seed):
     for kf in extra.get('known_finding_lines', []):
         log(kf)
     if vio_lines:
+        # the deductive stage's own state is reported too (a violation found by a harness while the verifier
+        # could not read the changed text is still a violation, but the reader should see both facts)
+        for i in infra:
+            log('INFRA: ' + i)
+        for ob in undecided:
+            log('UNDECIDED (proof-internal, no semantic obligation failed): %s' % ob['id'])
         for l in vio_lines:
             log(l)
         return 1
